@@ -47,6 +47,15 @@ def cases(tier, seed, shard, nshards):
         yield _sim.random_sim_case(rng, small=True, algos=("naive", "overbook", "vtemplate"))
     if tier == "thorough" and shard in (2, 3):
         yield _sim.regression_case(shard)
+    # scale cases: large in one dimension (one per shard for the first shards; all of them, twice, in the thorough tier)
+    _kinds = ["storm", "storm", "storm", "storm"]
+    for _j, _kd in enumerate(_kinds * (1 if tier == "quick" else 2)):
+        if tier == "thorough" or _j == shard:
+            _k, _, _a = _kd.partition(":")
+            yield _sim.scale_case(rng, _k, algo=_a or None)
+    if tier == "thorough":
+        for _k in range(2):
+            yield _sim.long_sim_case(rng, algos=("priority", "priority", "priority-pool"))
 
 
 def run_case(case, mon):
